@@ -279,8 +279,27 @@ def answers(ann):
 """
 
 
+def _copies(ann):
+    """same-process copies of an annotation by every route that can carry it"""
+    import pickle
+
+    import cloudpickle
+
+    out = []
+    for label, mk in (("pickle", lambda: pickle.loads(pickle.dumps(ann))), ("pickle-protocol-2", lambda: pickle.loads(pickle.dumps(ann, protocol=2))), ("cloudpickle", lambda: pickle.loads(cloudpickle.dumps(ann))), ("deepcopy", lambda: copy.deepcopy(ann))):
+        try:
+            out.append((label, mk()))
+        except Exception:  # noqa
+            pass
+    return out
+
+
 def run_shard(rec, seed, shard, tier):
     warnings.filterwarnings("ignore")
+    if shard.get("i", 0) % 4 == 1:
+        # array types whose instances change over time (late ABC registration, protocols with data members, proxies):
+        # the original and its copies answer alike at every moment
+        real.array_type_membership_probe(rec, "C20", copies=_copies)
     scratch = tempfile.mkdtemp(prefix="jtv_c20_")
     try:
         with open(os.path.join(scratch, "jtv_user_cats.py"), "w") as f:
